@@ -81,6 +81,7 @@ type ParseResult struct {
 	Msg     string      `json:"m,omitempty"`
 	Recs    []Rec       `json:"recs,omitempty"`
 	Fetched int         `json:"f"`
+	Steps   int         `json:"steps,omitempty"` // simulated time of the parse: GetToken calls + actions run
 	Value   interface{} `json:"v,omitempty"`
 	Trace   string      `json:"trace,omitempty"`
 	// TraceCapped: the trace was longer than 6 MB and was not kept
@@ -211,6 +212,7 @@ func runParse(p *Parser, c interface{}, e *env) (res ParseResult) {
 		}
 		res.Recs = e.recs
 		res.Fetched = e.fetched
+		res.Steps = e.steps
 		res.InHash = fmt.Sprintf("%x", e.inHash)
 		if x := recover(); x != nil {
 			switch v := x.(type) {
